@@ -480,7 +480,7 @@ impl Model {
     }
 
     fn act_execute_silent(&mut self, cmd: &str) {
-        let current_index = self.selection.get_current_item_idx();
+        let current_index = self.selection.get_current_item_ordinal();
         let current_item = self.selection.get_current_item();
         if depends_on_items(cmd) && current_item.is_none() {
             debug!("act_execute_silent: command refers to items and there is no item for now");
@@ -771,7 +771,7 @@ impl Model {
         }
 
         // re-draw
-        let item_index = self.selection.get_current_item_idx();
+        let item_index = self.selection.get_current_item_ordinal();
         let item = self.selection.get_current_item();
         if let Some(previewer) = self.previewer.as_mut() {
             let selections = &self.selection;
